@@ -31,7 +31,7 @@ func VerifStart(store queue.Store, compiled config.Compiled) (*VerifRuntime, err
 		return nil, err
 	}
 	_, cancel := context.WithCancel(context.Background())
-	servers, err := startServers(store, compiled, state, newDiscardLogger(), nil, appMetrics, nil, nil, cancel)
+	servers, err := startServers(store, compiled, state, newDiscardLogger(), verifAccessLogger(compiled), appMetrics, nil, nil, cancel)
 	if err != nil {
 		cancel()
 		return nil, err
